@@ -175,7 +175,7 @@ def replay_native(exe, hexstr, workdir, tag):
     failed = [l[len("CHECK-FAILED "):] for l in out.splitlines() if l.startswith("CHECK-FAILED ")]
     traj = []
     for l in out.splitlines():
-        m = re.match(r"STEP lane=(\d+) k=(\d+) state=(-?\d+) ustate=(\d+) cmd=(-?\d+) var=(-?\d+) index=(-?\d+) type=(-?\d+)", l)
+        m = re.match(r"STEP lane=(\d+) k=(\d+) state=(-?\d+) ustate=(\d+) cmd=(-?\d+) var=(-?\d+) index=(-?\d+) type=(-?\d+) ucmd=(-?\d+) uvar=(-?\d+) uindex=(-?\d+)", l)
         if m:
             traj.append(tuple(int(x) for x in m.groups()))
     result = "ok"
@@ -205,7 +205,7 @@ def gen_hints(hints, path):
              "        switch (lane * 1000 + k) {"]
     for (lane, k) in sorted(hints):
         lines.append("        case %d:" % (lane * 1000 + k))
-        for (s, u, c, v, i, t) in sorted(hints[(lane, k)]):
+        for (s, u, c, v, i, t, uc, uv, ui) in sorted(hints[(lane, k)]):
             if c >= 0:
                 cond = "at->cmd == &vf_cmd_base[%d]" % c
                 setc = " at->cmd = &vf_cmd_base[%d];" % c
@@ -233,6 +233,22 @@ def gen_hints(hints, path):
                 setc += " at->cmd_type = (cat_cmd_type)(%d);" % t
             elif t == -2:
                 cond += " && ((int)at->cmd_type < -1 || (int)at->cmd_type > 4)"
+            if uc >= 0:
+                cond += " && at->unsolicited_fsm.cmd == &vf_cmd_base[%d]" % uc
+                setc += " at->unsolicited_fsm.cmd = &vf_cmd_base[%d];" % uc
+            elif uc == -1:
+                cond += " && at->unsolicited_fsm.cmd == NULL"
+                setc += " at->unsolicited_fsm.cmd = NULL;"
+            elif uc == -2:
+                cond += " && VF_CMDIDX(at->unsolicited_fsm.cmd) == -2"
+            if uv >= 0 and uc >= 0:
+                cond += " && at->unsolicited_fsm.var == &vf_cmd_base[%d].var[%d]" % (uc, uv)
+                setc += " at->unsolicited_fsm.var = &vf_cmd_base[%d].var[%d];" % (uc, uv)
+            elif uv == -1:
+                cond += " && at->unsolicited_fsm.var == NULL"
+            if ui >= 0:
+                cond += " && at->unsolicited_fsm.index == %d" % ui
+                setc += " at->unsolicited_fsm.index = %d;" % ui
             lines.append("                if (at->state == (cat_state)(%d) && at->unsolicited_fsm.state == (cat_unsolicited_state)(%d) && %s) {" % (s, u, cond))
             lines.append("                        at->state = (cat_state)(%d); at->unsolicited_fsm.state = (cat_unsolicited_state)(%d);%s" % (s, u, setc))
             lines.append("                        return cat_service(at);")
@@ -382,6 +398,28 @@ def scen_from_trace(trace, layout=None):
     return "".join("%02x" % b for b in out)
 
 
+def decode_scen(hexs, lay):
+    """named view of a scenario (struct scen bytes) for the evidence file"""
+    if not lay:
+        return {"bytes_hex": hexs}
+    b = bytes.fromhex(hexs)
+    out = {}
+    for name, (off, dims) in lay.items():
+        n = 1
+        for d in dims:
+            n *= d
+        chunk = b[off:off + n]
+        if not dims:
+            out[name] = chunk[0] if chunk else 0
+        elif name in ("in", "text", "nm", "buf", "jbuf", "ubuf", "hbuf") or all(32 <= c < 127 for c in chunk):
+            out[name] = chunk.decode("latin-1").encode("unicode_escape").decode("ascii")
+        elif n <= 24:
+            out[name] = list(chunk)
+        else:
+            out[name] = chunk.hex()
+    return out
+
+
 def parse_cbmc(out):
     res = {"props": [], "status": None, "vars": 0, "clauses": 0, "steps": 0, "solver_s": 0.0, "symex_s": 0.0, "messages": []}
     try:
@@ -462,6 +500,7 @@ def run_job(job, workdir, prop, seed=0, log=None):
 
     os.makedirs(workdir, exist_ok=True)
     layout = scen_layout(job)
+    R["layout"] = layout[0] if layout else None
     nat, err = build_native(job, workdir)
     if nat is None:
         R["reason"] = "harness does not compile natively against this tree: " + err[-400:]
